@@ -89,8 +89,14 @@ func FrostRefreshTaproot(rng *vk.Rand, ids []party.ID, cfgs map[party.ID]*frost.
 	return res, n, nil
 }
 
-// CloneFrost deep-copies through the documented encoder.
-func CloneFrost(c *frost.Config) *frost.Config {
+// CloneFrost / CloneTaproot / CloneCMP copy structurally, independent of the codecs under test.
+func CloneFrost(c *frost.Config) *frost.Config                 { return DeepCopy(c) }
+func CloneTaproot(c *frost.TaprootConfig) *frost.TaprootConfig { return DeepCopy(c) }
+func CloneCMP(c *cmp.Config) *cmp.Config                       { return DeepCopy(c) }
+
+// RestoreFrost / RestoreTaproot / RestoreCMP serialise and restore through the documented encoders (the
+// "serialize/restore" operation of histories).
+func RestoreFrost(c *frost.Config) *frost.Config {
 	b, err := cbor.Marshal(c)
 	if err != nil {
 		panic(err)
@@ -102,7 +108,7 @@ func CloneFrost(c *frost.Config) *frost.Config {
 	return out
 }
 
-func CloneTaproot(c *frost.TaprootConfig) *frost.TaprootConfig {
+func RestoreTaproot(c *frost.TaprootConfig) *frost.TaprootConfig {
 	b, err := cbor.Marshal(c)
 	if err != nil {
 		panic(err)
@@ -114,7 +120,7 @@ func CloneTaproot(c *frost.TaprootConfig) *frost.TaprootConfig {
 	return out
 }
 
-func CloneCMP(c *cmp.Config) *cmp.Config {
+func RestoreCMP(c *cmp.Config) *cmp.Config {
 	b, err := c.MarshalBinary()
 	if err != nil {
 		panic(err)
